@@ -18,7 +18,7 @@ for d in seeded/${1:-C}*/; do
   git -C /repo apply $PWD/$d/patch.diff || { echo "| $n | - | patch does not apply | |" >> $OUT; continue; }
   for id in $ids; do
     res=$(timeout 900 ./check $id quick 2>&1); code=$?
-    sigs=$(echo "$res" | grep -oE "signature=[^ ]+" | sort -u | head -4 | tr '\n' ' ')
+    sigs=$(echo "$res" | grep -oE "(^| )signature=[^ ]+" | tr -d " " | sort -u | head -4 | tr '\n' ' ')
     echo "| $n | $id | $code | $sigs |" >> $OUT
     echo "$n $id exit=$code $sigs"
   done
